@@ -776,3 +776,137 @@ Proof.
     rewrite (assigned_choked i (new_peer id (length (m_plens m))) eq_refl). cbn [b2n]. specialize (IH i n H). lia.
   - exact (reservation_invariant m c pick m' r bc sp FR IH Hp Hs).
 Qed.
+
+(* ---- C14: the choke rotation keeps the slot bound -------------------------------------------------- *)
+Definition unch (p : peer) : bool := negb (p_am_choked p).
+Definition U (ps : list (addr * peer)) : N := len (filter (fun kp => unch (snd kp)) ps).
+Definition vget (ps : list (addr * peer)) (a : addr) : N := match pget ps a with Some p => b2n (unch p) | None => 0 end.
+Definition V (ps : list (addr * peer)) (l : list addr) : N := fold_right (fun a acc => vget ps a + acc) 0 l.
+
+Lemma pget_pset_same ps a p' : pget (pset ps a p') a = Some p'.
+Proof.
+  induction ps as [|[k q] ps IH]; cbn [pset pget]; [rewrite N.eqb_refl; reflexivity|].
+  destruct (k =? a) eqn:E; cbn [pget]; rewrite E; [reflexivity | exact IH].
+Qed.
+Lemma pget_pset_other ps a b p' : a <> b -> pget (pset ps a p') b = pget ps b.
+Proof.
+  intros N. induction ps as [|[k q] ps IH]; cbn [pset pget].
+  - replace (a =? b) with false by (symmetry; apply N.eqb_neq; exact N). reflexivity.
+  - destruct (k =? a) eqn:E; cbn [pget].
+    + apply N.eqb_eq in E. subst k. replace (a =? b) with false by (symmetry; apply N.eqb_neq; exact N). reflexivity.
+    + destruct (k =? b); [reflexivity | exact IH].
+Qed.
+Lemma V_pset_notin ps a p' l : ~ In a l -> V (pset ps a p') l = V ps l.
+Proof.
+  induction l as [|b l IH]; intros Hn; [reflexivity|]. cbn [V fold_right]. fold (V (pset ps a p') l). fold (V ps l).
+  rewrite IH by (intros H; apply Hn; right; exact H). unfold vget. rewrite pget_pset_other by (intros ->; apply Hn; left; reflexivity). reflexivity.
+Qed.
+Lemma U_pset ps a p p' : pget ps a = Some p -> U (pset ps a p') + b2n (unch p) = U ps + b2n (unch p').
+Proof. apply (count_pset unch). Qed.
+
+Lemma V_perm ps l l' : Permutation l l' -> V ps l = V ps l'.
+Proof. unfold V. induction 1; cbn [fold_right] in *; lia. Qed.
+
+Lemma pget_in_nodup ps k p : NoDup (map fst ps) -> In (k, p) ps -> pget ps k = Some p.
+Proof.
+  induction ps as [|[k0 q] ps IH]; intros Hnd Hin; [destruct Hin|]. cbn [map fst] in Hnd. inversion Hnd as [|? ? Hni Hnd']; subst.
+  cbn [pget]. destruct Hin as [[= -> ->]|Hin]; [rewrite N.eqb_refl; reflexivity|].
+  destruct (N.eqb_spec k0 k) as [->|]; [exfalso; apply Hni; apply in_map_iff; exists (k, p); auto | apply IH; assumption].
+Qed.
+
+Lemma U_is_V ps : NoDup (map fst ps) -> U ps = V ps (map fst ps).
+Proof.
+  intros Hnd. unfold U, V.
+  assert (G : forall l, (forall kp, In kp l -> In kp ps) ->
+              len (filter (fun kp => unch (snd kp)) l) = fold_right (fun a acc => vget ps a + acc) 0 (map fst l)).
+  { induction l as [|[k p] l IH]; intros Hsub; [reflexivity|]. cbn [filter snd map fst fold_right].
+    unfold vget at 1. rewrite (pget_in_nodup ps k p Hnd (Hsub _ (or_introl eq_refl))).
+    rewrite <- IH by (intros kp H; apply Hsub; right; exact H). destruct (unch p); cbn [b2n]; rewrite ?len_cons; lia. }
+  apply G. auto.
+Qed.
+
+Lemma rotate_go_bound new_opt : forall order ps count flips ps' fl', NoDup order -> count <= MAX_UNCHOKED ->
+  U ps = count + V ps order -> rotate_go ps order new_opt count flips = Ok (ps', fl') -> U ps' <= MAX_UNCHOKED.
+Proof.
+  induction order as [|a rest IH]; intros ps count flips ps' fl' Hnd Hc HU H.
+  - cbn [rotate_go] in H. injection H as <- _. cbn [V fold_right] in HU. lia.
+  - cbn [rotate_go] in H. destruct (pget ps a) as [p|] eqn:Ep; [|discriminate].
+    inversion Hnd as [|? ? Hni Hnd']; subst.
+    cbn [V fold_right] in HU. fold (V ps rest) in HU. unfold vget in HU. rewrite Ep in HU.
+    set (opt := match new_opt with [] => p_optimistic p | _ => false end) in *.
+    assert (Go : forall am cnt' (fl : list (addr * bool)), cnt' <= MAX_UNCHOKED ->
+                 U (pset ps a (set_am_choked p am opt)) = cnt' + V (pset ps a (set_am_choked p am opt)) rest ->
+                 rotate_go (pset ps a (set_am_choked p am opt)) rest new_opt cnt' (flips ++ fl) = Ok (ps', fl') -> U ps' <= MAX_UNCHOKED).
+    { intros am cnt' fl Hc' HU' H'. exact (IH _ _ _ _ _ Hnd' Hc' HU' H'). }
+    pose proof (U_pset ps a p) as UP.
+    unfold MAX_UNCHOKED in *.
+    destruct (count <? 10) eqn:Elt.
+    + destruct (p_am_choked p && p_interested p && negb (mem_addr a new_opt)) eqn:E1.
+      * (* unchoke *)
+        apply (Go false (count + 1) [(a, false)]); [lia | | exact H].
+        rewrite V_pset_notin by exact Hni. specialize (UP (set_am_choked p false opt) Ep).
+        apply andb_true_iff in E1. destruct E1 as [E1 _]. apply andb_true_iff in E1. destruct E1 as [E1 _].
+        unfold unch in *. cbn [set_am_choked p_am_choked] in UP. rewrite E1 in *. cbn [negb b2n] in *. lia.
+      * destruct (negb (p_am_choked p) && p_interested p) eqn:E2.
+        -- apply (Go (p_am_choked p) (count + 1) []); [lia | | exact H].
+           rewrite V_pset_notin by exact Hni. specialize (UP (set_am_choked p (p_am_choked p) opt) Ep).
+           apply andb_true_iff in E2. destruct E2 as [E2 _]. apply negb_true_iff in E2.
+           unfold unch in *. cbn [set_am_choked p_am_choked] in UP. rewrite E2 in *. cbn [negb b2n] in *. lia.
+        -- destruct (negb (p_am_choked p) && negb (p_interested p)) eqn:E3.
+           ++ apply (Go true count [(a, true)]); [lia | | exact H].
+              rewrite V_pset_notin by exact Hni. specialize (UP (set_am_choked p true opt) Ep).
+              apply andb_true_iff in E3. destruct E3 as [E3 _]. apply negb_true_iff in E3.
+              unfold unch in *. cbn [set_am_choked p_am_choked] in UP. rewrite E3 in *. cbn [negb b2n] in *. lia.
+           ++ apply (Go (p_am_choked p) count []); [lia | | exact H].
+              rewrite V_pset_notin by exact Hni. specialize (UP (set_am_choked p (p_am_choked p) opt) Ep).
+              unfold unch in *. cbn [set_am_choked p_am_choked] in UP.
+              destruct (p_am_choked p) eqn:Ec; cbn [negb b2n andb] in *; [lia|].
+              destruct (p_interested p); cbn in E2, E3; discriminate.
+    + destruct (negb (p_am_choked p)) eqn:E1.
+      * apply (Go true count [(a, true)]); [lia | | exact H].
+        rewrite V_pset_notin by exact Hni. specialize (UP (set_am_choked p true opt) Ep).
+        apply negb_true_iff in E1. unfold unch in *. cbn [set_am_choked p_am_choked] in UP. rewrite E1 in *. cbn [negb b2n] in *. lia.
+      * apply (Go (p_am_choked p) count []); [lia | | exact H].
+        rewrite V_pset_notin by exact Hni. specialize (UP (set_am_choked p (p_am_choked p) opt) Ep).
+        apply negb_false_iff in E1. unfold unch in *. cbn [set_am_choked p_am_choked] in UP. rewrite E1 in *. cbn [negb b2n] in *. lia.
+Qed.
+
+Lemma set_optimistic_bound : forall new_opt ps flips ps' fl', set_optimistic ps new_opt flips = Ok (ps', fl') ->
+  U ps' <= U ps + len new_opt.
+Proof.
+  induction new_opt as [|a rest IH]; intros ps flips ps' fl' H; cbn [set_optimistic] in H.
+  - injection H as <- _. rewrite len_nil. lia.
+  - destruct (pget ps a) as [p|] eqn:Ep; [|discriminate]. specialize (IH _ _ _ _ H).
+    pose proof (U_pset ps a p (set_am_choked p false true) Ep) as UP. unfold unch in UP at 2. cbn [set_am_choked p_am_choked negb b2n] in UP.
+    rewrite len_cons. destruct (unch p); cbn [b2n] in UP; lia.
+Qed.
+
+Lemma insert_rate_perm x l : Permutation (insert_rate x l) (x :: l).
+Proof.
+  induction l as [|y r IH]; cbn [insert_rate]; [apply Permutation_refl|].
+  destruct (snd y <=? snd x); [apply Permutation_refl|].
+  eapply Permutation_trans; [apply perm_skip; exact IH | apply perm_swap].
+Qed.
+Lemma sort_rates_perm l : Permutation (sort_rates l) l.
+Proof.
+  induction l as [|x l IH]; cbn [sort_rates fold_right]; [apply Permutation_refl|].
+  eapply Permutation_trans; [apply insert_rate_perm | apply perm_skip; exact IH].
+Qed.
+
+(* after every rotation over all connected peers at most ten peers are unchoked, plus the new optimistic ones *)
+Theorem rotation_bound m rates new_opt m' fl :
+  NoDup (map fst (m_peers m)) -> Permutation (map fst rates) (map fst (m_peers m)) ->
+  change_conn_state m rates new_opt = Ok (m', fl) -> U (m_peers m') <= MAX_UNCHOKED + len new_opt.
+Proof.
+  intros Hnd Hperm H. unfold change_conn_state in H.
+  destruct (rotate_go (m_peers m) (map fst (sort_rates rates)) new_opt 0 []) as [[ps1 fl1]| | |] eqn:E1; cbn [bind] in H; try discriminate.
+  cbn [fst snd] in H. destruct (set_optimistic ps1 new_opt fl1) as [[ps2 fl2]| | |] eqn:E2; cbn [bind] in H; try discriminate.
+  injection H as <- _. cbn [m_peers fst].
+  assert (Hp : Permutation (map fst (sort_rates rates)) (map fst (m_peers m))).
+  { eapply Permutation_trans; [apply Permutation_map; apply sort_rates_perm | exact Hperm]. }
+  assert (B1 : U ps1 <= MAX_UNCHOKED).
+  { eapply (rotate_go_bound new_opt _ _ 0 [] ps1 fl1); [| unfold MAX_UNCHOKED; lia | | exact E1].
+    - eapply Permutation_NoDup; [apply Permutation_sym; exact Hp | exact Hnd].
+    - rewrite (U_is_V _ Hnd). rewrite (V_perm _ _ _ Hp). lia. }
+  pose proof (set_optimistic_bound _ _ _ _ _ E2). lia.
+Qed.
